@@ -24,6 +24,9 @@ pub fn text_of_ticket(ticket : &[u8]) -> String
     enc62_ref(&BigUint::from_bytes_le(ticket))
 }
 
+/// user `mv` operations in generated histories (needs the model's OMove: coq/Model/Ops.v)
+pub const MOVE_OPS : bool = true;
+
 /// short text form of a ticket given as raw bytes (diagnostics)
 pub fn cache_name_of_ticket(ticket : &[u8]) -> String
 {
@@ -575,8 +578,17 @@ pub fn run_history(out : &mut Out, rng : &mut Rng, params : &HistParams, label :
             Some(rng.pick(&targets).clone())
         };
         let roll = if step == 0 { 0 } else { rng.below(100) };
+        // the user moves a target aside (`mv t t.bak`) and, later, an older copy back (`mv t.bak t`): the file keeps
+        // its modification time, which is OLDER than what ruler remembers for the path by then
+        let stashed : Vec<String> = disk.files.keys().filter(|p| p.ends_with(".bak")).cloned().collect();
+        let move_op : Option<Op> =
+            if !MOVE_OPS || step == 0 || !rng.chance(1, 10) { None }
+            else if !stashed.is_empty() && rng.chance(2, 3) { let b = rng.pick(&stashed).clone(); Some(Op::Move(b.clone(), b[..b.len() - 4].to_string())) }
+            else if !existing_targets.is_empty() { let t = rng.pick(&existing_targets).clone(); Some(Op::Move(t.clone(), format!("{}.bak", t))) }
+            else { None };
         let op : Op =
-        if roll < 34 { Op::Build(goal(rng)) }
+        if let Some(m) = move_op { m }
+        else if roll < 34 { Op::Build(goal(rng)) }
         else if roll < 42 { Op::Clean(goal(rng)) }
         else if roll < 60
         {
@@ -879,6 +891,20 @@ pub fn mixed_ops(r : &mut Rng) -> Vec<Op>
         ops.push(Op::Remove(t));
         for _ in 0..4 { v = flip(v); ops.push(Op::Write(l.to_string(), v.as_bytes().to_vec())); ops.push(Op::Build(None)); }
     }
+    // now and then: an early copy of a target is moved aside, the target is rebuilt with other content and cleaned
+    // into the cache, the early copy (older than what ruler remembers for the path) is moved back, a leaf changes, build
+    if MOVE_OPS && r.chance(1, 3)
+    {
+        let t = r.pick(&names[..n_targets]).to_string();
+        ops.push(Op::Move(t.clone(), format!("{}.bak", t)));
+        for l in leaves.iter() { ops.push(Op::Write(l.to_string(), b"3".to_vec())); }
+        ops.push(Op::Build(None));
+        ops.push(Op::Clean(if r.chance(1, 2) { None } else { Some(t.clone()) }));
+        ops.push(Op::Move(format!("{}.bak", t), t.clone()));
+        if r.chance(1, 2) { ops.push(Op::Write(r.pick(&leaves).to_string(), b"4".to_vec())); }
+        ops.push(Op::Build(None));
+        ops.push(Op::Build(None));
+    }
     ops
 }
 
@@ -1178,6 +1204,22 @@ pub fn clean_build(ctx : &Ctx, out : &mut Out)
         if r.chance(1, 4) { let l : Vec<String> = leaves.iter().cloned().collect(); user(Op::Write(r.pick(&l).clone(), b"edited".to_vec()), &mut ops, &mut obs); tr.last_ok_build = None; }
         let built = invoke(Op::Build(None), &mut ops, &mut obs, &mut tr, out);
         if !built.verdict.is_ok() { emit_case(out, false, 1_000_000, &ops, &obs, false); continue; }
+        // now and then the user puts OLDER copies of all targets back with their old modification times: every target
+        // moved aside, everything rebuilt from other leaf values, the leaves put back, the copies moved back — the
+        // targets are up to date again, only older than what ruler remembers for their paths
+        if MOVE_OPS && r.chance(1, 3)
+        {
+            let originals : Vec<(String, Vec<u8>)> = leaves.iter().filter_map(|l| driver.sys.read(l).map(|c| (l.clone(), c))).collect();
+            for t in targets.iter() { user(Op::Move(t.clone(), format!("{}.bak", t)), &mut ops, &mut obs); }
+            for (l, _) in originals.iter() { user(Op::Write(l.clone(), b"other".to_vec()), &mut ops, &mut obs); }
+            tr.last_ok_build = None;
+            let other = invoke(Op::Build(None), &mut ops, &mut obs, &mut tr, out);
+            for (l, c) in originals.iter() { user(Op::Write(l.clone(), c.clone()), &mut ops, &mut obs); }
+            for t in targets.iter() { user(Op::Move(format!("{}.bak", t), t.clone()), &mut ops, &mut obs); }
+            tr.last_ok_build = None;
+            out.count("older-copies-moved-back");
+            if !other.verdict.is_ok() { emit_case(out, false, 1_000_000, &ops, &obs, false); continue; }
+        }
         // some targets executable by the user
         if r.chance(1, 3) { let t = r.pick(&targets).clone(); user(Op::Chmod(t, true), &mut ops, &mut obs); }
         let up_to_date = disk_files(&driver.sys.disk());
